@@ -215,7 +215,10 @@ class CSVDailyBarDataSource(object):
             The bid price.
         """
         bid_ask_df = self.asset_bid_ask_frames[asset]
-        bid_series = bid_ask_df.iloc[bid_ask_df.index.get_indexer([dt], method='pad')]['Bid']
+        indexer = bid_ask_df.index.get_indexer([dt], method='pad')
+        if indexer[0] == -1:  # Before start date (-1 would wrap to the last row)
+            return np.nan
+        bid_series = bid_ask_df.iloc[indexer]['Bid']
         try:
             bid = bid_series.iloc[0]
         except KeyError:  # Before start date
@@ -240,7 +243,10 @@ class CSVDailyBarDataSource(object):
             The ask price.
         """
         bid_ask_df = self.asset_bid_ask_frames[asset]
-        ask_series = bid_ask_df.iloc[bid_ask_df.index.get_indexer([dt], method='pad')]['Ask']
+        indexer = bid_ask_df.index.get_indexer([dt], method='pad')
+        if indexer[0] == -1:  # Before start date (-1 would wrap to the last row)
+            return np.nan
+        ask_series = bid_ask_df.iloc[indexer]['Ask']
         try:
             ask = ask_series.iloc[0]
         except KeyError:  # Before start date
